@@ -78,6 +78,10 @@ partial def decRegexp (j : Json) : Except String (Regexp S) := do
   | "cat", 3 => pure (.cat (← decRegexp a[1]!) (← decRegexp a[2]!))
   | _, _ => throw "bad regexp tag"
 
+def strToWord (s : String) : List String := s.toList.map String.singleton
+def getWords (j : Json) (k : String) : Except String (List (List String)) := do
+  pure ((← getStrList j k).map strToWord)
+
 def encStrs (l : List String) : Json := Json.arr (l.map Json.str).toArray
 def encWords (l : List (List String)) : Json := Json.arr (l.map fun w => Json.str (String.join w)).toArray
 
@@ -103,6 +107,64 @@ def encDir : Dir → String | .L => "L" | .R => "R"
 
 def encCfg (c : TMConfig S S) : Json :=
   Json.arr #[Json.str c.q, encStrs c.tape, Json.num c.head]
+
+def decSym (j : Json) : Except String Sym := do
+  let l ← asStrList j
+  match l with
+  | ["t", a] => pure (.t a)
+  | ["v", a] => pure (.v a)
+  | _ => throw "bad sym"
+
+def encSym : Sym → Json
+  | .t a => encStrs ["t", a]
+  | .v a => encStrs ["v", a]
+
+def decCFG (j : Json) : Except String CFG := do
+  let rs ← getArr j "R"
+  let R ← rs.toList.mapM fun e => do
+    let a ← e.getArr?
+    if a.size != 3 then throw "bad rule"
+    let syms ← (← a[2]!.getArr?).toList.mapM decSym
+    pure ({ lhs := ← a[0]!.getStr?, aid := ← a[1]!.getNat?, rhs := syms } : CRule)
+  pure { V := ← getStrList j "V", Sigma := ← getStrList j "Sigma", R := R, S := ← getStr j "S" }
+
+def encCFG (G : CFG) : Json :=
+  Json.mkObj [("V", encStrs G.V), ("Sigma", encStrs G.Sigma), ("S", Json.str G.S),
+    ("R", Json.arr (G.R.map fun r => Json.arr #[Json.str r.lhs, Json.num r.aid, Json.arr (r.rhs.map encSym).toArray]).toArray)]
+
+def encCyk (X : CFG.CykTable) : Json :=
+  Json.arr (X.map fun e => Json.arr #[Json.num e.1.1, Json.num e.1.2, encStrs e.2]).toArray
+
+def decPDA (j : Json) : Except String SPDA := do
+  let d ← getArr j "delta"
+  let delta ← d.toList.mapM fun e => do
+    let a ← e.getArr?
+    if a.size != 4 then throw "bad pda delta entry"
+    let ts ← (← a[3]!.getArr?).toList.mapM fun t => do
+      let l ← asStrList t
+      match l with
+      | [q, v] => pure (q, v)
+      | _ => throw "bad pda target"
+    pure ((← a[0]!.getStr?, ← a[1]!.getStr?, ← a[2]!.getStr?), ts)
+  let eps ← getStr j "eps"
+  pure { Q := ← getStrList j "Q", Sigma := ← getStrList j "Sigma", Gamma := ← getStrList j "Gamma",
+         delta := delta, q0 := ← getStr j "q0", F := ← getStrList j "F", eps := eps, epsG := eps }
+
+def encPDA (P : SPDA) : Json :=
+  Json.mkObj [("Q", encStrs P.Q), ("Sigma", encStrs P.Sigma), ("Gamma", encStrs P.Gamma),
+    ("delta", Json.arr (P.delta.map fun e => Json.arr #[Json.str e.1.1, Json.str e.1.2.1, Json.str e.1.2.2,
+       Json.arr (e.2.map fun t => encStrs [t.1, t.2]).toArray]).toArray),
+    ("q0", Json.str P.q0), ("F", encStrs P.F), ("eps", Json.str P.eps)]
+
+def decConfs (j : Json) (k : String) : Except String (List (PConf String String)) := do
+  let a ← getArr j k
+  a.toList.mapM fun c => do
+    let x ← c.getArr?
+    if x.size != 2 then throw "bad conf"
+    pure (← x[0]!.getStr?, ← asStrList x[1]!)
+
+def encConfs (l : List (PConf String String)) : Json :=
+  Json.arr (l.map fun c => Json.arr #[Json.str c.1, encStrs c.2]).toArray
 
 def okJ (v : Json) : Json := Json.mkObj [("ok", v)]
 def errJ (e : Err) : Json := Json.mkObj [("err", Json.str e.toString)]
